@@ -483,3 +483,17 @@ def random_mode_comment(r, p=0.5, allow=("return-mode", "unmatched-mode", "print
     if "validation-mode" in allow and r.random() < 0.15:
         out += "validation-mode: " + r.choice(["no-raise, no-stop", "print, no-raise", "no-print, no-raise"]) + " "
     return out
+
+
+HEADERLESS_SCANS = ["*", "*", "0*", "0-5", "0-3", "0+2-6"]
+
+
+def gen_case(r, features, p_headerless=0.2, **kw):
+    """(program, rows): usually a file with a header row and a scan that skips it; in the headerless stratum the
+    file has no header row, the scan starts at line 0 and headers are addressed by index"""
+    g = Gen(r, features)
+    if r.random() < p_headerless:
+        prog = g.program(scan=r.choice(HEADERLESS_SCANS), **kw)
+        prog["comps"] = [index_headers(c) for c in prog["comps"]]
+        return prog, data_rows(r, header_prob=0.0)
+    return g.program(**kw), data_rows(r)
